@@ -37,6 +37,21 @@ def run(ctx):
             ok = "param:2" in bx.tags(t["args"][1])
     ctx.ob("R7", "begin_with_isolation#level", ok,
            what="begin_with_isolation does not pass its isolation level to the new transaction", where=bw.loc())
+    # validation only reads the sets: a commit that is refused returns with the transaction still Active, so whatever
+    # commit removed from its read or write set is missing when the transaction (or a later committer) is validated again
+    E = ctx.effects()
+    nacc = 0
+    for g in P.family(commit):
+        for a in E.own_acc(g):
+            if a.cell[0] == common.TXINFO and a.cell[1] in ("read_set", "write_set"):
+                nacc += 1
+                bad = E.is_write(a) or a.how in ("refmut",) or any(o.split("::")[-1] in ("take", "replace", "swap", "drain", "clear", "retain") for o in a.ops)
+                ctx.ob("R8", "TransactionManager::commit#%s-read-only" % a.cell[1], not bad,
+                       what="TransactionManager::commit modifies TxInfo.%s (%s %s) while validating: after a refused commit the "
+                            "transaction stays Active with a changed set, and the next validation (a retry, or a later committer) "
+                            "works on the wrong set" % (a.cell[1], a.kind, sorted(o.split("::")[-1] for o in a.ops)[:4]),
+                       where=g.loc(a.line))
+    ctx.floor("R8", nacc, 4, "accesses to the read/write sets in commit")
     sf = find_aggregates(commit, "TransactionError", "SerializationFailure")
     ctx.floor("R2", len(sf), 1, "SerializationFailure constructions in TransactionManager::commit")
     for n, (bi, si, rv, ln) in enumerate(sf):
